@@ -161,6 +161,7 @@ func keyTuple(m map[string]any, ks []OrderKey) string {
 }
 
 func (p *c05) RunCase(i int) *core.CaseResult {
+	defer withNoise()()
 	r := &core.CaseResult{}
 	c := &p.cases[i]
 	sql := p.sel(c).SQL()
